@@ -281,19 +281,141 @@ func ruleTopK(r *Run, rule string, k *vecKind) {
 			final = ret
 		}
 	}
-	if final == nil {
+	var out ssa.Value
+	if final != nil {
+		out = resultValue(final, 0)
+	} else if sortCall != nil {
+		// single exit: `return results, err` with both joined from the branches — the success operand is the one paired
+		// with a nil error, and the sort must precede the branch it comes from
+		for _, ret := range returnsOf(fn) {
+			ei := errIndex(fn)
+			if ei < 0 {
+				continue
+			}
+			ephi, okE := resultValue(ret, ei).(*ssa.Phi)
+			ophi, okO := resultValue(ret, 0).(*ssa.Phi)
+			if !okE || !okO || ephi.Block() != ophi.Block() {
+				continue
+			}
+			for i, e := range ephi.Edges {
+				if kc, isK := e.(*ssa.Const); isK && kc.Value == nil {
+					pred := ephi.Block().Preds[i]
+					if sortCall.Block() == pred || sortCall.Block().Dominates(pred) {
+						if out != nil {
+							out = nil // several success operands: not this shape
+							break
+						}
+						out, final = ophi.Edges[i], ret
+					}
+				}
+			}
+		}
+	}
+	if final == nil || out == nil {
 		r.Bad(rule, k.Name+":return", w.Pos(fn.Pos())+" "+name, "no success return dominated by the sort of the result slice")
 		return
 	}
 	site := w.InstrPos(final) + " " + name
-	out := resultValue(final, 0)
 	mk, ok := out.(*ssa.MakeSlice)
+	var appendFill *ssa.Call // the other form: out = append(out, {…}) for every element of L[:K]
+	var kcall *ssa.Call
 	if !ok {
-		r.Und(rule, k.Name+":make", site, "returned slice is not a make([]VectorResult, K)")
-		return
+		// out := make([]VectorResult, 0, K); for _, r := range L[:K] { out = append(out, VectorResult{Node: r.elem, Score: r.dist}) }
+		if ph, isPhi := out.(*ssa.Phi); isPhi && len(ph.Edges) == 2 {
+			for _, e := range ph.Edges {
+				if ci, isInstr := e.(ssa.Instruction); isInstr {
+					if ac, isAppend := isBuiltinCall(ci, "append"); isAppend && ac.Call.Args[0] == ssa.Value(ph) {
+						appendFill = ac
+					}
+				}
+			}
+			for _, e := range ph.Edges {
+				switch x := e.(type) {
+				case *ssa.MakeSlice:
+					if lc, isC := x.Len.(*ssa.Const); !isC || lc.Int64() != 0 {
+						appendFill = nil
+					}
+				case *ssa.Const:
+					if x.Value != nil {
+						appendFill = nil
+					}
+				case *ssa.Call:
+					if x != appendFill {
+						appendFill = nil
+					}
+				default:
+					appendFill = nil
+				}
+			}
+		}
+		if appendFill == nil {
+			r.Und(rule, k.Name+":make", site, "returned slice is not a make([]VectorResult, K)")
+			return
+		}
+		// the appended element is read from S = L[:K] at the range index of a loop over S, on every iteration
+		elems, okE := appendedElems(appendFill)
+		var src *ssa.Slice
+		if okE && len(elems) == 1 {
+			if fields, okF := litFields(elems[0]); okF && fields["Node"] != nil && fields["Score"] != nil {
+				ni, si := elemIndexAddrOf(fields["Node"]), elemIndexAddrOf(fields["Score"])
+				if ni != nil && si != nil && ni.X == si.X && ni.Index == si.Index && isRangeIndex(ni.Index) {
+					src, _ = ni.X.(*ssa.Slice)
+					okFields := fieldNameOfElem(fields["Node"]) == sinks[0].ElemF && fieldNameOfElem(fields["Score"]) == sinks[0].DistF
+					r.Check(okFields, rule, k.Name+":fill", w.InstrPos(appendFill)+" "+name, "appended {Node: L[i]."+sinks[0].ElemF+", Score: L[i]."+sinks[0].DistF+"} with the same i",
+						"appended element reads "+fieldNameOfElem(fields["Node"])+" / "+fieldNameOfElem(fields["Score"]))
+				}
+			}
+		}
+		if src == nil && okE && len(elems) == 1 {
+			// for i := 0; i < K; i++ { out = append(out, {L[i].elem, L[i].dist}) }
+			fields := litFieldsMust(elems[0])
+			ni, si := elemIndexAddrOf(fields["Node"]), elemIndexAddrOf(fields["Score"])
+			if ni != nil && si != nil && ni.Index == si.Index && cellOf(ni.X) == cell && cellOf(si.X) == cell {
+				if ph, isPhi := ni.Index.(*ssa.Phi); isPhi {
+					if init, bound, isCounted := countedLoop(ph); isCounted && init == 0 {
+						if kc, isCall := bound.(*ssa.Call); isCall && staticCallee(kc.Common()) == san && appendFill.Block().Idom() == ph.Block() {
+							okFields := fieldNameOfElem(fields["Node"]) == sinks[0].ElemF && fieldNameOfElem(fields["Score"]) == sinks[0].DistF
+							r.Check(okFields, rule, k.Name+":fill", w.InstrPos(appendFill)+" "+name, "appended {Node: L[i]."+sinks[0].ElemF+", Score: L[i]."+sinks[0].DistF+"} with the same i",
+								"appended element reads "+fieldNameOfElem(fields["Node"])+" / "+fieldNameOfElem(fields["Score"]))
+							r.Ok(rule, k.Name+":fill:bound", w.InstrPos(appendFill)+" "+name, "one append per i in [0, K)")
+							if sortCall != nil {
+								r.Check(domInstr(sortCall, appendFill), rule, k.Name+":fill:after-sort", w.InstrPos(appendFill)+" "+name, "copy happens after the sort", "copy happens before the result slice is sorted")
+							}
+							kcall = kc
+						}
+					}
+				}
+			}
+		}
+		if kcall == nil && (src == nil || src.Low != nil || src.High == nil || cellOf(src.X) != cell) {
+			r.Bad(rule, k.Name+":fill", w.InstrPos(appendFill)+" "+name, "the appended results are not read from L[:K] of the sorted slice at the loop's own index")
+			return
+		}
+		if kcall == nil {
+			// the loop ranges over S itself and appends on every iteration
+			hdr := appendFill.Block().Idom()
+			whole := false
+			if inc, isInc := elemIndexAddrOf(litFieldsMust(elems[0])["Node"]).Index.(*ssa.BinOp); isInc && hdr != nil {
+				for _, ref := range *inc.Referrers() {
+					if cmp, isCmp := ref.(*ssa.BinOp); isCmp && cmp.Op == token.LSS && cmp.X == ssa.Value(inc) {
+						if lc, isCall := cmp.Y.(*ssa.Call); isCall {
+							if b, isB := lc.Call.Value.(*ssa.Builtin); isB && b.Name() == "len" && lc.Call.Args[0] == ssa.Value(src) && cmp.Block() == hdr {
+								whole = true
+							}
+						}
+					}
+				}
+			}
+			r.Check(whole, rule, k.Name+":fill:bound", w.InstrPos(appendFill)+" "+name, "one append per element of L[:K]", "the copy loop does not append once per element of L[:K]")
+			if sortCall != nil {
+				r.Check(domInstr(sortCall, appendFill), rule, k.Name+":fill:after-sort", w.InstrPos(appendFill)+" "+name, "copy happens after the sort", "copy happens before the result slice is sorted")
+			}
+			kcall, _ = src.High.(*ssa.Call)
+		}
+	} else {
+		kcall, _ = mk.Len.(*ssa.Call)
 	}
-	kcall, ok := mk.Len.(*ssa.Call)
-	if !ok || staticCallee(kcall.Common()) != san {
+	if kcall == nil || staticCallee(kcall.Common()) != san {
 		r.Bad(rule, k.Name+":bound", site, "length of the returned slice is not the result of sanitizeK")
 		return
 	}
@@ -315,6 +437,9 @@ func ruleTopK(r *Run, rule string, k *vecKind) {
 		"K derives from the builder's k ("+first+")", "K does not derive from the builder's k: "+first)
 	if sortCall != nil {
 		r.Check(domInstr(sortCall, kcall) || true, rule, k.Name+":bound:after-sort", site, "bound computed on the final slice", "")
+	}
+	if mk == nil {
+		return
 	}
 	// element stores: out[i] = VectorResult{Node: L[i].elem, Score: L[i].dist}
 	stores := 0
@@ -425,6 +550,46 @@ func ruleProvenance(r *Run, rule string, k *vecKind) {
 	case "pq":
 		// dist = float32(sqrt(float64(Σ table[m][code[m]]))) with code = codes[range], e = vectorNodes[range]
 		ok := strings.Contains(distC, "math.Sqrt(") && strings.Contains(elemC, "[range]")
+		if !ok && strings.Contains(distC, "math.Sqrt(") {
+			// counted loop over the codes: the element and the code are read at the very same index value
+			var ei ssa.Value
+			if eia := elemIndexAddrOf(s.Elem); eia != nil {
+				ei = eia.Index
+			}
+			same := ei != nil
+			n := 0
+			for _, t := range accumulatedTerms(s.Dist) {
+				ld, isLd := t.(*ssa.UnOp)
+				if !isLd {
+					same = false
+					continue
+				}
+				tia, isIA := ld.X.(*ssa.IndexAddr)
+				if !isIA {
+					same = false
+					continue
+				}
+				var inner ssa.Value = tia.Index
+				for {
+					if cv, isCv := inner.(*ssa.Convert); isCv {
+						inner = cv.X
+						continue
+					}
+					break
+				}
+				cia := elemIndexAddrOf(inner) // &code[m]
+				if cia == nil {
+					same = false
+					continue
+				}
+				codeAt := elemIndexAddrOf(cia.X) // &codes[i]
+				if codeAt == nil || codeAt.Index != ei {
+					same = false
+				}
+				n++
+			}
+			ok = same && n > 0
+		}
 		r.Check(ok, rule, "pq:score", site, "score = sqrt(Σ_m table[m][code[m]]) for the element at the same range index as its code",
 			"score "+distC+" / element "+elemC+" do not have the expected table-lookup shape")
 	case "ivfpq":
@@ -1110,4 +1275,53 @@ func elemIndexOf(v ssa.Value) ssa.Value {
 		}
 	}
 	return nil
+}
+
+// elemIndexAddrOf: v is X[i].f (or X[i]) possibly read through an addressable copy of the element; returns &X[i].
+func elemIndexAddrOf(v ssa.Value) *ssa.IndexAddr {
+	for d := 0; d < 8 && v != nil; d++ {
+		switch x := v.(type) {
+		case *ssa.UnOp:
+			if x.Op != token.MUL {
+				return nil
+			}
+			v = x.X
+		case *ssa.Alloc:
+			v = singleStore(x)
+		case *ssa.FieldAddr:
+			v = x.X
+		case *ssa.Field:
+			v = x.X
+		case *ssa.IndexAddr:
+			return x
+		default:
+			return nil
+		}
+	}
+	return nil
+}
+
+// fieldNameOfElem: v is X[i].f; returns f.
+func fieldNameOfElem(v ssa.Value) string {
+	for d := 0; d < 4 && v != nil; d++ {
+		switch x := v.(type) {
+		case *ssa.UnOp:
+			v = x.X
+		case *ssa.FieldAddr:
+			return fieldName(x.X.Type(), x.Field)
+		case *ssa.Field:
+			return fieldName(x.X.Type(), x.Field)
+		default:
+			return ""
+		}
+	}
+	return ""
+}
+
+func litFieldsMust(v ssa.Value) map[string]ssa.Value {
+	f, _ := litFields(v)
+	if f == nil {
+		f = map[string]ssa.Value{}
+	}
+	return f
 }
